@@ -14,6 +14,7 @@ package main
 import (
 	"fmt"
 	"os"
+	"reflect"
 	"sort"
 	"strconv"
 	"strings"
@@ -201,6 +202,11 @@ func (p *prop) Gen(r *vh.Rng, tier string, n int) []vh.Case {
 		}
 		cases = append(cases, vh.Case{Lines: lines, Nontrivial: size >= 1})
 	}
+	if followerHook() {
+		for k := 0; k < n/2+1; k++ {
+			cases = append(cases, followerCase(r.Fork()))
+		}
+	}
 	if tier == "thorough" {
 		item := 0
 		for mask := 0; mask < 1<<len(pool); mask++ {
@@ -234,6 +240,103 @@ func (p *prop) Gen(r *vh.Rng, tier string, n int) []vh.Case {
 		}
 	}
 	return cases
+}
+
+// followerHook reports whether the tree under test has the mergeClusterStatus shims of
+// verif_c21.go (added after the first integration of this harness); without them no follower
+// lines are generated and replayed follower lines answer `skip`.
+func followerHook() bool {
+	t := reflect.TypeOf((*pilosa.VerifC21Env)(nil))
+	_, a := t.MethodByName("MergeClusterStatus")
+	_, b := t.MethodByName("SetFollower")
+	_, c := t.MethodByName("ClusterState")
+	return a && b && c
+}
+
+// followerCase: a node that is not the coordinator holds fragments (the shards it owned plus the
+// ones it copied during the resize), is in state RESIZING with the OLD node list, and receives the
+// coordinator's final ClusterStatus; also the transitions that must not clean anything.
+func followerCase(cr *vh.Rng) vh.Case {
+	size := cr.Pick(2, 3, 3, 4, 4, 5, 6)
+	var ids []string
+	for _, x := range cr.Perm(len(pool))[:size] {
+		ids = append(ids, pool[x])
+	}
+	rep := cr.Pick(1, 2, 2, 2, 3, 3, 4)
+	var lines []string
+	name := indexNames[cr.Intn(len(indexNames))]
+	schema := genSchema(cr)
+	if cr.Chance(3, 4) {
+		schema = "f:standard"
+		if cr.Chance(1, 2) {
+			schema = "f:standard,standard_2019;g:standard"
+		}
+	}
+	var locals []uint64
+	for v := 0; v <= 9; v++ {
+		if cr.Chance(4, 5) {
+			locals = append(locals, uint64(v))
+		}
+	}
+	lines = append(lines, fmt.Sprintf("idx %s %s %s %s", name, schema, vh.CSV(locals), vh.CSV(subsetU(cr, 12, 2, 10))))
+	lines = append(lines, fmt.Sprintf("cluster %s %d", csvS(ids), rep))
+	// the membership change
+	var final []string
+	removed := ""
+	if cr.Chance(3, 5) {
+		removed = ids[cr.Intn(len(ids))]
+		final = without(ids, removed)
+	} else {
+		var out []string
+		in := map[string]bool{}
+		for _, id := range ids {
+			in[id] = true
+		}
+		for _, x := range pool {
+			if !in[x] {
+				out = append(out, x)
+			}
+		}
+		final = append(append([]string{}, ids...), out[cr.Intn(len(out))])
+	}
+	coord := final[cr.Intn(len(final))]
+	self := final[cr.Intn(len(final))]
+	for tries := 0; self == coord && tries < 4; tries++ {
+		self = final[cr.Intn(len(final))]
+	}
+	from, to := "RESIZING", "NORMAL"
+	switch cr.Intn(12) {
+	case 0:
+		to = "DEGRADED"
+	case 1:
+		from = "NORMAL"
+	case 2:
+		from = "STARTING"
+	case 3:
+		to = "RESIZING"
+	case 4:
+		self = coord // the coordinator ignores its own status
+	case 5:
+		if removed != "" {
+			self = removed // the node that was removed keeps itself in its list
+		}
+	}
+	// a permutation of the final list: the status carries nodes in the coordinator's order
+	var perm []string
+	for _, j := range cr.Perm(len(final)) {
+		perm = append(perm, final[j])
+	}
+	lines = append(lines, fmt.Sprintf("follower %s %s %s", self, coord, from))
+	lines = append(lines, fmt.Sprintf("status %s %s %s", to, csvS(perm), coord))
+	if cr.Chance(1, 2) {
+		lines = append(lines, fmt.Sprintf("status %s %s %s", to, csvS(final), coord)) // repeated status: nothing more to do
+		lines = append(lines, "fbh "+name)
+	}
+	if cr.Chance(1, 3) {
+		lines = append(lines, fmt.Sprintf("status RESIZING %s %s", csvS(final), coord))
+		lines = append(lines, fmt.Sprintf("status NORMAL %s %s", csvS(ids), coord))
+	}
+	return vh.Case{Lines: lines, Nontrivial: from == "RESIZING" && to != "RESIZING" && self != coord}
 }
 
 // ---------- execution ----------
@@ -584,6 +687,14 @@ func (p *prop) Exec(lines []string) []string {
 	defer e.Close()
 	v := &env{e: e, dir: dir, rep: 1}
 	have := map[string]bool{}
+	isFollower := false
+	call := func(name string, args ...interface{}) []reflect.Value {
+		var in []reflect.Value
+		for _, a := range args {
+			in = append(in, reflect.ValueOf(a))
+		}
+		return reflect.ValueOf(e).MethodByName(name).Call(in)
+	}
 	for i, l := range lines {
 		ws := strings.Fields(l)
 		outs[i] = vh.Guard(ws[0], func() string {
@@ -597,6 +708,7 @@ func (p *prop) Exec(lines []string) []string {
 				}
 				e.SetCluster(ids, rep, self, coord)
 				v.rep = rep
+				isFollower = false
 				return "[" + strings.Join(e.NodeIDs(), " ") + "]"
 			case len(ws) == 5 && ws[0] == "idx":
 				var fields []string
@@ -653,6 +765,44 @@ func (p *prop) Exec(lines []string) []string {
 				return v.sources(ws[1], parseIDs(ws[2]))
 			case len(ws) == 3 && ws[0] == "job" && (ws[1] == "add" || ws[1] == "remove"):
 				return v.job(ws[1], ws[2])
+			case len(ws) == 4 && ws[0] == "follower":
+				if !followerHook() {
+					return "skip"
+				}
+				switch ws[3] {
+				case "STARTING", "NORMAL", "DEGRADED", "RESIZING":
+				default:
+					return "bad-op"
+				}
+				call("SetFollower", ws[1], ws[2], ws[3])
+				isFollower = true
+				return "ok"
+			case len(ws) == 4 && ws[0] == "status":
+				if !followerHook() {
+					return "skip"
+				}
+				if !isFollower {
+					return "bad-op"
+				}
+				before := len(e.Fragments())
+				if err, _ := call("MergeClusterStatus", ws[1], parseIDs(ws[2]), ws[3])[0].Interface().(error); err != nil {
+					return "err:merge"
+				}
+				fr := e.Fragments()
+				if len(fr) < before {
+					vh.Count("status-cleaned-some")
+				} else {
+					vh.Count("status-cleaned-none")
+				}
+				var ss []string
+				for _, f := range fr {
+					ss = append(ss, f.Index+"/"+showFrag(f.Frag))
+				}
+				frs := "-"
+				if len(ss) > 0 {
+					frs = strings.Join(ss, " ")
+				}
+				return call("ClusterState")[0].String() + " [" + strings.Join(e.NodeIDs(), " ") + "] | " + frs
 			case len(ws) == 2 && ws[0] == "clean":
 				before := len(e.Fragments())
 				if err := e.Clean(ws[1]); err != nil {
